@@ -697,7 +697,7 @@ impl World {
                         }
                         // through the handle the pending changes are visible
                         let seen: Vec<MVal> = txn.iter().map(|v| v.m()).collect();
-                        self.ck.check(seen == working, &[C07], || format!("transaction handle shows {:?}, working contents are {:?}", seen, working))?;
+                        self.ck.check(seen == working, &[C07, C17], || format!("transaction handle shows {:?}, working contents are {:?}", seen, working))?;
                     }
                     match end {
                         TxnEnd::Commit => {
